@@ -33,7 +33,7 @@ func (sa *S3ApiRouter) Init(app *fiber.App, be backend.Backend, iam auth.IAMServ
 	s3ApiController := controllers.New(be, iam, logger, evs, mm, debug, readonly)
 
 	if sa.WithAdmSrv {
-		adminController := controllers.NewAdminController(iam, be, aLogger)
+		adminController := controllers.NewAdminController(iam, be, aLogger, readonly)
 
 		// CreateUser admin api
 		app.Patch("/create-user", middlewares.IsAdmin(logger), adminController.CreateUser)
